@@ -113,6 +113,13 @@ class DyneRef:
         e = np.einsum("mja,jab,mjb->mj", d, self._Sinv, d)
         return np.einsum("j,j,mj->m", self.mix.w, self._pref, np.exp(-0.5 * e))
 
+    def abs_density(self, y):
+        """sum of the absolute values of the terms of density(y): the scale of rounding errors when terms cancel"""
+        self.density(y)
+        d = np.asarray(y, dtype=complex)[None, :] - self.muB
+        e = np.einsum("ja,jab,jb->j", d, self._Sinv, d)
+        return float(np.sum(np.abs(self.mix.w * self._pref * np.exp(-0.5 * e))))
+
     def mean_cov(self):
         """mean and covariance of the outcome distribution (exact for one peak; moment-matched otherwise)"""
         w = self.mix.w / np.sum(self.mix.w)
